@@ -74,6 +74,7 @@ class Recorder:
         self.docs = []           # raw (name, doc) for property-specific oracles
         self.sched = []          # scheduling info (not part of the trace)
         self.groups = {}         # group names -> canonical g<n> (built-in plans use random group names)
+        self._uids = set()
 
     def ev(self, k, s1="", s2="", s3="", n1=0, n2=0, s4=""):
         with self.lock:
@@ -95,22 +96,59 @@ class Recorder:
     def state_hook(self, new, old):
         self.ev("state", str(old), str(new))
 
+    def _flag(self, name, doc):
+        """observed validity of a document: schema-valid and uid not seen before ('' = fine)"""
+        flag = ""
+        try:
+            import event_model
+            event_model.schema_validators[event_model.DocumentNames[name]].validate(doc)
+        except Exception:  # noqa
+            flag = "invalid"
+        uid = doc.get("uid")
+        if uid is not None:
+            if uid in self._uids:
+                flag = "dupuid"
+            self._uids.add(uid)
+        return flag
+
+    def devmask(self, keys):
+        """the set of devices whose data keys make up `keys`, as a decimal bit mask over DEV_ORDER ('x' if the keys are not
+        exactly a union of whole devices)"""
+        keys = set(keys)
+        mask, covered = 0, set()
+        for i, d in enumerate(DEV_ORDER):
+            dk = DEV_KEYS.get(d, set())
+            if dk and dk <= keys:
+                mask |= 1 << i
+                covered |= dk
+        return str(mask) if covered == keys else "x"
+
     def doc_cb(self, name, doc):
         with self.lock:
             self.docs.append((name, doc))
+        flag = self._flag(name, doc)
         if name == "start":
             self.run_ord[doc["uid"]] = len(self.run_ord) + 1
-            self.ev("doc", "start", "", "", 0, self.run_ord[doc["uid"]])
+            self.ev("doc", "start", "", "", 0, self.run_ord[doc["uid"]], flag)
         elif name == "descriptor":
             ro = self.run_ord.get(doc["run_start"], 0)
             self.desc[doc["uid"]] = (doc.get("name", ""), ro)
-            self.ev("doc", "descriptor", doc.get("name", ""), "", 0, ro)
+            self.ev("doc", "descriptor", doc.get("name", ""), "", 0, ro, flag)
+            self.ev("dsc", doc.get("name", ""), self.devmask(doc.get("data_keys", {})), "", 0, ro)
+            for obj, c in sorted((doc.get("configuration") or {}).items()):
+                for k, v in sorted((c.get("data") or {}).items()):
+                    if k == obj + "_cfg":
+                        self.ev("cfg", doc.get("name", ""), obj, "", int(v), ro)
         elif name == "event":
             stream, ro = self.desc.get(doc["descriptor"], ("?", 0))
-            self.ev("doc", "event", stream, "", doc["seq_num"], ro)
+            self.ev("doc", "event", stream, "", doc["seq_num"], ro, flag)
+            import hashlib
+            items = sorted((k, repr(v)) for k, v in doc.get("data", {}).items())
+            dig = hashlib.sha1(repr(items).encode()).hexdigest()[:8]
+            self.ev("dat", stream, dig, self.devmask(doc.get("data", {})), doc["seq_num"], ro)
         elif name == "stop":
             ro = self.run_ord.get(doc["run_start"], 0)
-            self.ev("doc", "stop", "", doc.get("exit_status", ""), 0, ro)
+            self.ev("doc", "stop", "", doc.get("exit_status", ""), 0, ro, flag)
             for stream, n in sorted((doc.get("num_events") or {}).items()):
                 self.ev("nev", stream, "", "", n, ro)
         elif name == "event_page":
@@ -205,6 +243,9 @@ def msg_arg(msg):
     return ""
 
 
+DEV_ORDER = ["det", "det2", "mon1", "motor", "motor2", "pdet"]          # = DevOrderDef of the trace configurations
+DEV_KEYS = {"det": {"det"}, "det2": {"det2"}, "mon1": {"mon1"}, "motor": {"motor", "motor_setpoint"},
+            "motor2": {"motor2", "motor2_setpoint"}, "pdet": {"pdet"}}
 GROUP_CMDS = ("set", "trigger", "stage", "unstage", "kickoff", "complete", "prepare", "wait")
 FUT_NAMES = {}     # id(awaitable factory) -> name, registered by the scenario runner
 
